@@ -25,7 +25,10 @@ Inductive label :=
 | LDrop (from : side) (i : nat)
 | LDup (from : side) (i : nat)
 | LInject (from : side) (seg : segment)   (* forged segment, delivered at once to the peer of [from] *)
-| LFair (k : nat)                    (* k loss-free rounds *)
+| LFair (k : nat)                    (* k loss-free rounds with 101 ms ticks *)
+| LFairT (k : nat) (ms : Z) (one : bool)   (* k loss-free rounds with ticks of ms milliseconds; one = deliver only
+                                             the oldest third (at least one) of the in-flight segments per direction
+                                             and round (queueing delay: arrivals are spread over several ticks) *)
 | LCheck.                            (* harness oracle check-point; no effect *)
 
 Record config := mkCfg { portA : Z; portB : Z; issA : Z; issB : Z; mtuA : Z; mtuB : Z }.
@@ -171,11 +174,19 @@ Fixpoint deliver_all (fuel : nat) (c : config) (s : sys) (x : side) : sys :=
     end
   end.
 
-Definition fair_half (c : config) (s : sys) (x : side) : sys :=
-  let s1 := fst (tick s x 101) in
+Definition fair_half_t (c : config) (s : sys) (x : side) (ms : Z) (one : bool) : sys :=
+  let s1 := fst (tick s x ms) in
   let '(s2, _, _) := emit s1 x in
-  let s3 := deliver_all (S (length (net_of s2 x))) c s2 x in
+  let s3 := deliver_all (if one then S (Nat.div (length (net_of s2 x)) 3) else S (length (net_of s2 x))) c s2 x in
   fst (recv (fst (recv s3 SA)) SB).
+
+Definition fair_half (c : config) (s : sys) (x : side) : sys := fair_half_t c s x 101 false.
+
+Fixpoint fair_rounds_t (k : nat) (c : config) (s : sys) (ms : Z) (one : bool) : sys :=
+  match k with
+  | O => s
+  | S k' => fair_rounds_t k' c (fair_half_t c (fair_half_t c s SA ms one) SB ms one) ms one
+  end.
 
 Fixpoint fair_rounds (k : nat) (c : config) (s : sys) : sys :=
   match k with
@@ -237,6 +248,7 @@ Definition sys_step (c : config) (s : sys) (l : label) : sys * obs :=
     end
   | LInject x seg => arrive c s (other x) seg
   | LFair k => (fair_rounds k c s, OFair)
+  | LFairT k ms one => (fair_rounds_t k c s ms one, OFair)
   | LCheck => (s, ONone)
   end.
 
